@@ -2,6 +2,7 @@ package checks
 
 import (
 	"fmt"
+	"os"
 	"sort"
 	"strings"
 
@@ -341,6 +342,9 @@ func CFRun(it *harness.Interp, cfg CFConfig, t *tape.Tape, seed, run uint64, st 
 	ast, err := harness.Parse(src)
 	if err != nil {
 		st.ParseRejects++
+		if os.Getenv("VERIF_DUMP_REJECTS") != "" {
+			fmt.Fprintf(os.Stderr, "PARSE-REJECT %v\n%s\n----\n", err, src)
+		}
 		if st.ParseRejects <= 3 {
 			st.Sample = append(st.Sample, map[string]interface{}{"parse_reject": src, "err": err.Error()})
 		}
